@@ -151,30 +151,34 @@ def run(ctx, res):
     for p in ev.paths:
         if p.end != "exit" or p.ret() != ("c", OKV):
             continue
+        # the decision atom: (estimate + allowance + len_key + len_val) ? block_size, in any association and on either side
         gate = None
+        kname, vname = wadd.params[2]["name"], wadd.params[4]["name"]
         for (a, b), v in p.cons.items():
-            if a.startswith("(block_builder_current_size_estimate(") and re.match(r"^w->opt\.block_size@\d+$", b):
-                m = re.match(r"^\(block_builder_current_size_estimate\(w->data@\d+\)@\d+\+(.*)\)$", a)
-                grp = None
-                if m and re.match(r"^[\w#+()]+$", m.group(1)):
-                    toks = re.findall(r"#\d+|\w+", m.group(1))
-                    consts = [t for t in toks if t.startswith("#")]
-                    syms = [t for t in toks if not t.startswith("#")]
-                    if len(consts) == 1 and len(syms) == 2:
-                        grp = (consts[0][1:], syms[0], syms[1])
-                gate = (v, grp)
+            if "block_builder_current_size_estimate(" not in a + b or "block_size" not in a + b:
+                continue
+            terms, const = lindiff(a, b)
+            est = [t for t in terms if t.startswith("block_builder_current_size_estimate(")]
+            bs = [t for t in terms if t.endswith("opt.block_size")]
+            if len(est) != 1 or len(bs) != 1 or terms[est[0]] * terms[bs[0]] >= 0:
+                continue
+            sign = terms[est[0]]          # +1: estimate side is the left operand
+            rest = {t: c * sign for t, c in terms.items() if t not in (est[0], bs[0])}
+            vv = v if sign > 0 else APE.mirror(v)
+            gate = (vv, rest, const * sign, abs(terms[est[0]]) == 1 and abs(terms[bs[0]]) == 1)
         flushed = bool(p.calls("_mtbl_writer_flush"))
-        if gate is None or gate[1] is None:
-            res.bad("C09.R4", site(wadd, "size-gate"), "block cut decision is not `estimate + 15 + len_key + len_val ? block_size`", wadd.loc(wadd.body), p.describe(wadd))
+        if gate is None:
+            res.bad("C09.R4", site(wadd, "size-gate"), "no decision compares the size estimate with the configured block size on a path that accepts an entry",
+                    wadd.loc(wadd.body), p.describe(wadd))
             continue
-        v, (k, a1, a2) = gate
-        okform = int(k) == 15 and {a1, a2} == {wadd.params[2]["name"], wadd.params[4]["name"]}
+        v, rest, k, unit = gate
+        okform = unit and k == 15 and rest == {kname: 1, vname: 1}
         if flushed:
             res.check(okform and LT not in v, "C09.R4", site(wadd, "cut"), "block closed first when estimate + 15 + len_key + len_val >= block_size",
-                      "block is closed on %s with header allowance %s" % (sorted(v), k), wadd.loc(wadd.body), p.describe(wadd))
+                      "block is closed on %s of estimate + %s + %s against block_size" % (sorted(v), k, rest), wadd.loc(wadd.body), p.describe(wadd))
         else:
             res.check(okform and v == frozenset((LT,)), "C09.R4", site(wadd, "no-cut"), "entry joins the open block only while the total stays below block_size",
-                      "entry joins the open block although the limit may be reached (%s)" % sorted(v), wadd.loc(wadd.body), p.describe(wadd))
+                      "entry joins the open block on %s of estimate + %s + %s against block_size" % (sorted(v), k, rest), wadd.loc(wadd.body), p.describe(wadd))
 
     # ---- R5 offsets ---------------------------------------------------------------------------
     res.floor("C09.R5", 3)
